@@ -54,7 +54,7 @@ def _from_json(j):
             return cls(c[0], s[0], c[1])
         if n in ("C17Tagged", "C17OldVar"):
             return cls(s[0], s[1])
-        if n in ("C17Unit", "C17OldLeaf"):
+        if n in ("C17Unit", "C17OldLeaf", "C17Fn"):
             return cls()
         if n in ("C17NoHash", "C17Old"):
             return cls(s[0], c[0])
@@ -124,6 +124,44 @@ _ALT = False
 _MEMO = None
 
 
+def var_leaf(j, name):
+    """the description of the variable leaf called `name` inside the description j (None: the
+    expression has no such leaf); leaves are Var records and User records of a class derived
+    from Variable"""
+    if isinstance(j, list):
+        for x in j:
+            r = var_leaf(x, name)
+            if r is not None:
+                return r
+        return None
+    if not isinstance(j, dict):
+        return None
+    if j.get("t") == "Var" and j["name"] == name:
+        return j
+    if (j.get("t") == "User" and issubclass(c17_classes.CLASSES[j["cls"]], p.Variable)
+            and j["s"][0] == name):
+        return j
+    for k in sorted(j):
+        r = var_leaf(j[k], name)
+        if r is not None:
+            return r
+    return None
+
+
+def listed_variable(entry, name):
+    """one element of the explicit `variables` list of a compiled expression, given the way
+    the catalogue entry says (vobj): a string, a Variable object, or the object the expression
+    itself uses for that name (in mode "shared": the very same object)"""
+    how = entry.get("vobj", "")
+    if how == "":
+        return name
+    if how == "same":
+        leaf = var_leaf(entry["e"], name)
+        if leaf is not None:
+            return from_json(leaf)
+    return p.Variable(name)
+
+
 def build(entry):
     global _NP, _OMIT, _MEMO, _ALT
     _NP = bool(entry.get("np"))
@@ -132,10 +170,12 @@ def build(entry):
     _MEMO = {} if entry.get("mode") == "shared" else None
     try:
         e = from_json(entry["e"])
+        if entry["kind"] == "compiled":
+            variables = [listed_variable(entry, n) for n in entry["vars"]]
     finally:
         _NP, _OMIT, _MEMO, _ALT = False, False, None, False
     if entry["kind"] == "compiled":
-        return CompiledExpression(e, list(entry["vars"]))
+        return CompiledExpression(e, variables)
     if entry.get("src"):
         from pymbolic import parse
         return parse(str(e))     # built from source: what the parser makes of the printed form
